@@ -174,6 +174,46 @@ def constant_reassign_stream(res, rng, n):
         res.count(('const-reassign', i, wa, wb, wc, wr), hist={'const_reassign_designs': 1})
 
 
+def memory_width_stream(res, rng, n):
+    """memories whose write-data wire is wider than their read-data wire (and the other way round): a stored word is in range for the
+    write port only; whatever was written -- in the same cycle or earlier -- the read-data wire must stay in range"""
+    import py4hw, contextlib, io
+    from py4hw.logic.storage import AsynchronousMemory, SynchronousMemory
+    for i in range(n):
+        r = rng.fork(i)
+        hw = py4hw.HWSystem()
+        aw = r.randint(1, 3)
+        wdw, rdw = r.randint(1, 12), r.randint(1, 12)
+        ra, wa, we = hw.wire('ra', aw), hw.wire('wa', aw), hw.wire('we')
+        wd, rd, q = hw.wire('wd', wdw), hw.wire('rd', rdw), hw.wire('q', rdw)
+        kind = r.choice(['AsynchronousMemory', 'AsynchronousMemory', 'SynchronousMemory'])
+        with contextlib.redirect_stdout(io.StringIO()):
+            (AsynchronousMemory if kind == 'AsynchronousMemory' else SynchronousMemory)(hw, 'm', ra, wa, we, rd, wd)
+            py4hw.Reg(hw, 'r', rd, q)
+            sim = hw.getSimulator()
+        wires = D.all_wires(hw)
+        hist = []
+        desc = dict(design=f'{kind}(writedata {wdw} bits, readdata {rdw} bits) -> Reg', aw=aw, history=hist)
+
+        def chk(_d=None, _s=None):
+            for w in wires:
+                v = w.value
+                if not (isinstance(v, int) and 0 <= v < (1 << w.getWidth())):
+                    res.fail(f'wire {w.getFullPath()} width {w.getWidth()} holds {v}',
+                             dict(desc, wire=w.getFullPath(), width=w.getWidth(), value=v, clks=sim.total_clks))
+                    return
+        sim.addListener(Listener(None, chk, sim))
+        few = [r.randint(0, (1 << aw) - 1) for _ in range(2)]
+        for t in range(r.randint(3, 12)):
+            st = dict(ra=r.choice(few), wa=r.choice(few), we=r.randint(0, 1), wd=r.choice([(1 << wdw) - 1, r.bits(wdw), 1 << (wdw - 1)]))
+            ra.put(st['ra']); wa.put(st['wa']); we.put(st['we']); wd.put(st['wd'])
+            hist.append(st)
+            with contextlib.redirect_stdout(io.StringIO()):
+                sim.clk(1)
+            chk()
+        res.count(('memwidth', i, kind, wdw, rdw), hist={'memory_width_designs': kind})
+
+
 _C07_FAM = None
 
 
@@ -328,6 +368,7 @@ def main(res, tier, rng, replay):
     user_blocks(res, rng.fork('user'), 40 if tier == 'quick' else 600)
     single_block_stream(res, rng.fork('single'), 300 if tier == 'quick' else 6000)
     constant_reassign_stream(res, rng.fork('const-reassign'), 80 if tier == 'quick' else 1500)
+    memory_width_stream(res, rng.fork('memwidth'), 60 if tier == 'quick' else 1200)
     res.cov['rule'] = ('T1: every generated leaf/FSM/Wire definition vs the real method on seeded states (distinct = distinct request '
                        'line); designs: seeded random netlists of primitive leaves with registers/feedback/memories, built in random '
                        'instantiation order, driven by extreme pokes (negative, oversized) and clk(n); every wire range-checked on the '
